@@ -34,6 +34,7 @@ package annotation
 
 import (
 	"context"
+	stdjson "encoding/json"
 	"errors"
 	"fmt"
 	"math"
@@ -112,13 +113,18 @@ func (m apiJSConv) Write(ctx context.Context, p *thrift.BinaryProtocol, field *t
 	var val = rt.Mem2Str(in)
 	t := field.Type().Type()
 	if len(in) >= 2 && in[0] == '"' && in[len(in)-1] == '"' {
-		val, err = strconv.Unquote(val)
-		if err != nil {
+		// NOTICE: strconv.Unquote() only knows Go syntax, it rejects valid JSON escapes like `\/` and surrogate pairs
+		var str string
+		if err = stdjson.Unmarshal(in, &str); err != nil {
 			return err
 		}
+		val = str
 		if t != thrift.STRING && val == "" {
 			val = "0"
 		}
+	} else if t == thrift.STRING && (len(in) == 0 || (in[0] != '-' && (in[0] < '0' || in[0] > '9'))) {
+		// besides a string only a number stands for a string field (like the native implementation does)
+		return fmt.Errorf("unsupported value for a string field: %s", val)
 	}
 
 	switch t {
